@@ -17,6 +17,42 @@ CHECKS = {
    note="64-bit hashing is not evaluated in TLA+: positions come from the code (logged). Exhaustive only for the tiny table."),
 }
 
+STORE_T = "TLA+ spec Store.tla (write pipeline: shard map, bounded queue, maintenance batches, eviction, expiry, Wait, Close) model-checked by TLC; TLC behaviours (StoreSim) replayed into the real Store by a gate scheduler over verif hook points; every recorded trace validated by TLC (StoreTrace observer)"
+CHECKS.update({
+ "C01": dict(level="model_checking", ref="4 C01", technique=STORE_T,
+   text="TLC explores all interleavings of two-phase writes, deletes, evictions and expiries of Store.tla for small constants (removal of a map slot is by identity); "
+        "TLC-generated interleavings are replayed into the real cache and free-running concurrent histories (distinct value per write; plain, loading, doorkeeper, entry pool) are recorded; "
+        "TLC validates every trace against the sequential map: each hit returns the latest value of that key's entry, each miss is justified, returned values equal the values read under the lock, and the resident set equals the history at every quiescent snapshot.",
+   note="Linearization points are the hook events emitted under the shard lock (trusted to be placed inside the critical sections); exhaustive only for the small constants."),
+ "C02": dict(level="model_checking", ref="4 C02", technique=STORE_T,
+   text="TLC checks AcctInv/InFlightBound of Store.tla over all arrival orders of insert/update/delete events, batch boundaries, evictions and the expiry re-check window; "
+        "the same interleavings are forced on the real Store by parking its goroutines at hook points (incl. the yield before the deadline re-check); white-box snapshots at quiescent points "
+        "(map, three policy regions, wheel, weightedSize, Len, EstimatedSize) are validated by TLC: resident cost = policy total <= MaxSize, tracked = resident exactly once with the current cost, deadlines on the wheel.",
+   note="Exact accounting for the default configuration (entry pool off). Victim choice and wheel visits are nondeterministic in the model."),
+ "C03": dict(level="model_checking", ref="4 C03", technique=STORE_T,
+   text="TLC checks the time fragment of Store.tla (cached clock refreshed by the ticker only after it holds the policy lock, three-way deadline test of getFromShard, clock jumps, stalls by any lock holder) for 'no hit at or after the deadline'; "
+        "sequential and TLC-generated schedules run under a virtual clock at nanosecond grain (deadline-1 / deadline / deadline+1, saturating TTL) and at 2^20 ns grain around the 30 s look-ahead and the wheel levels, with ticks, Range, loader-backed Get and policy-lock stalls; "
+        "TLC recomputes every deadline as call time + TTL and validates each hit against it.",
+   note="Virtual clock through the verif hook in clock.NowNano; a late hit is judged against the time of the call. The ticker is driven by the harness: outside stalls the cached clock lags by less than one second as in real time."),
+ "C05": dict(level="model_checking", ref="4 C05", technique=STORE_T,
+   text="TLC checks NotifInv/NotifComplete (at most one notification per incarnation, only after it left, reason of whoever removed the slot, exactly one at quiescence) over all overlaps of delete, eviction and expiry; "
+        "replayed and free-running executions log every listener call; TLC matches each call to the removal that owes it (key, value held when leaving, reason) and requires stored = resident + notified at every quiescent snapshot.",
+   note="Listener calls are attributed to the goroutine that removed the slot; Close (which clears the map without notifications) is excluded."),
+ "C06": dict(level="model_checking", ref="4 C06", technique=STORE_T,
+   text="Sequential programs (Set/SetWithTTL/Get/Delete/Wait over 2 keys, costs up to MaxSize+1, TTLs, doorkeeper on/off) are generated by TLC from Store.tla with maintenance and ticker steps interleaved at will and executed under a virtual clock; "
+        "TLC validates: false only for cost > MaxSize or a doorkeeper rejection and then nothing stored; true implies stored and readable; deadlines follow the call; removals only by Delete, own deadline or eviction under pressure; "
+        "nothing with cost > MaxSize admitted. A concurrent configuration (cost changes of one key arriving reordered) checks that nothing is evicted while the policy total is within capacity.",
+   note="Sampled programs (random walks), not all; the Bloom filter of the doorkeeper is not modelled (its decisions are taken from the hook event)."),
+ "C16": dict(level="model_checking", ref="4 C16", technique=STORE_T,
+   text="Traces of concurrent drivers carry Stats/Len/Range/EstimatedSize results; TLC compares them with its own ledger at quiescent points: hits+misses = Get calls, hits = Gets answered from the map, Len = resident entries, "
+        "EstimatedSize = their cost, Range visits each resident unexpired key once with its current value and stops when told. The model-level part is the accounting invariant of Store.tla.",
+   note="Range/Len calls overlapping other calls are only checked per visit."),
+ "C20": dict(level="model_checking", ref="4 C20", technique=STORE_T,
+   text="TLC checks the wait configuration of Store.tla (concurrent waiters, writers, every position of the markers relative to batch boundaries) for the barrier invariant and, with deadlock checking on, for return of every call; "
+        "the schedules are replayed on the real Store (two markers in one batch, wake-ups racing markers still queued); TLC validates that at every Wait return all write events whose calls had returned before the Wait call have been applied, and that no call hangs.",
+   note="A hang is reported only if a second execution of the same schedule hangs again."),
+})
+
 def main():
     props = [json.loads(l) for l in open(os.path.join(V, "properties.jsonl"))]
     hooks = subprocess.run(["git", "-C", "/repo", "log", "--format=%H %s", "--grep=^verif:"], stdout=subprocess.PIPE, text=True).stdout.strip().splitlines()
